@@ -198,3 +198,7 @@ mod tests {
         assert_eq!(response.core_version, response2.core_version);
     }
 }
+
+#[cfg(all(test, saito_verif))]
+#[path = "/verif/replay/in_crate/handshake.rs"]
+mod verif_replay;
